@@ -1,0 +1,53 @@
+//go:build verif
+
+package cache
+
+import (
+	"context"
+	"log/slog"
+	"net/http"
+	"sync"
+)
+
+// Verification hook (build tag "verif" only): exposes the exact string that
+// MakeFromRequest feeds to the hash, so an external harness can compare it with
+// a model of the key format. The string is taken from the debug record
+// MakeFromRequest itself emits; nothing of the key computation is duplicated here.
+
+type verifKeyCapture struct {
+	key   string
+	found bool
+}
+
+func (h *verifKeyCapture) Enabled(context.Context, slog.Level) bool { return true }
+func (h *verifKeyCapture) Handle(_ context.Context, rec slog.Record) error {
+	if rec.Message != "Creating cache key" {
+		return nil
+	}
+	rec.Attrs(func(a slog.Attr) bool {
+		if a.Key == "key" {
+			h.key = a.Value.String()
+			h.found = true
+			return false
+		}
+		return true
+	})
+	return nil
+}
+func (h *verifKeyCapture) WithAttrs([]slog.Attr) slog.Handler { return h }
+func (h *verifKeyCapture) WithGroup(string) slog.Handler      { return h }
+
+var verifKeyMu sync.Mutex
+
+// VerifKeyString returns the pre-hash key string of r and the key made from it.
+// ok is false when MakeFromRequest did not report its key string.
+func VerifKeyString(r *http.Request) (prehash string, key CacheKey, ok bool) {
+	verifKeyMu.Lock()
+	defer verifKeyMu.Unlock()
+	prev := slog.Default()
+	h := &verifKeyCapture{}
+	slog.SetDefault(slog.New(h))
+	defer slog.SetDefault(prev)
+	key = MakeFromRequest(r)
+	return h.key, key, h.found
+}
